@@ -115,6 +115,11 @@ def run_case(case):
             elif kind == "bad_key":
                 ske = cls(key_length=case["klen"])
                 key, m = B(case["key"]), B(case["m"])
+                if len(key) in (16, 24, 32):
+                    # the very same key bytes are valid for ANOTHER object (declared length = their length) and are used there first
+                    other = cls(key_length=len(key))
+                    if other.Decrypt(key, other.Encrypt(key, m)) != m:
+                        raise Violation("round trip failed", "roundtrip")
                 expect_value_error(lambda: ske.Encrypt(key, m), "Encrypt(wrong key length)")
                 good = b"\x01" * case["klen"]
                 c = ske.Encrypt(good, m)
